@@ -114,6 +114,13 @@ inductive RewriteAct where
   | toCreated | toDestroyed | pass | drop | unknown
 deriving DecidableEq, Repr, Inhabited
 
+/-- the argument of a `matches(…)` call in the `Updated` branch of WatchAll's filter closure -/
+inductive UpdArg where
+  | old        -- `event.Old`
+  | resource   -- `event.Resource`
+  | unknown    -- anything else (another expression, another predicate, a value derived some other way)
+deriving DecidableEq, Repr, Inhabited
+
 /-- the predicate a site applies to a resource: `IDQuery.Matches(md) && LabelQueries.Matches(labels)` -/
 inductive SelPred where
   | idAndLabels | unknown
@@ -383,6 +390,159 @@ inductive TaskFinish where
   | errNil             -- `err == nil`
   | errNilOrCanceled   -- `err == nil || errors.Is(err, context.Canceled)`: an error wrapping context.Canceled ends the loop too
   | unknown
+deriving DecidableEq, Repr, Inhabited
+
+/-! ### C03/C04: the generic helpers of pkg/state/wrap.go, condition.go and pkg/state/owned/state.go -/
+
+/-- which `res` the final `return res.Metadata().Finalizers().Empty(), nil` of `coreWrapper.Teardown` reads -/
+inductive ReadySrc where
+  | uwcResult    -- `res, err = state.UpdateWithConflicts(…)`: the value the teardown update wrote
+  | initialGet   -- the result of UpdateWithConflicts is discarded: `res` is still what the first Get read
+  | unknown
+deriving DecidableEq, Repr, Inhabited
+
+/-- what one `case` of a `switch event.Type` of wrap.go does (a type not listed in the switch: `.ignore`) -/
+inductive EvAct where
+  | retDestroyed      -- waitFinalizersEmpty: `return true, nil`
+  | checkFins         -- waitFinalizersEmpty: `if event.Resource != nil && …Finalizers().Empty() { return false, nil }`
+  | retError          -- waitFinalizersEmpty: `return false, event.Error`
+  | checkTearingDown  -- ContextWithTeardown: `if ev.Resource.Metadata().Phase() == resource.PhaseTearingDown { return }`
+  | cancel            -- ContextWithTeardown: `return` (the deferred cancel(nil) fires)
+  | cancelWithError   -- ContextWithTeardown: `cancel(ev.Error); return`
+  | ignore            -- empty case body / not listed
+  | unknown
+deriving DecidableEq, Repr, Inhabited
+
+/-- a top-level guard of `WatchForCondition.Matches` (condition.go), in source order -/
+inductive MatchGuard where
+  | eventTypes    -- `if condition.EventTypes != nil { … slices.Contains(condition.EventTypes, event.Type) … }`
+  | resourceNil   -- `if event.Resource == nil { return false, nil }`
+  | condFunc      -- `if condition.Condition != nil { … }`
+  | finsEmpty     -- `if condition.FinalizersEmpty { Destroyed ⇒ false; !Finalizers().Empty() ⇒ false }`
+  | phases        -- `if condition.Phases != nil { … slices.Contains(condition.Phases, …Phase()) … }`
+  | unknown
+deriving DecidableEq, Repr, Inhabited
+
+/-- how a guard of `Matches` can leave the function -/
+inductive GuardExit where
+  | denyOnly   -- every return inside the guard is `return false, …`; otherwise control falls through to the next guard
+  | decides    -- the guard returns its own test as the result (`return <expr>, nil`): later guards are never reached
+  | unknown
+deriving DecidableEq, Repr, Inhabited
+
+/-- a statement on the path of `coreWrapper.UpdateWithConflicts` from its entry (or from the retry decision) to the Update -/
+inductive UwcStmt where
+  | get          -- `current, err := state.Get(ctx, resourcePointer)`; an error is returned
+  | phaseCheck   -- `if options.ExpectedPhase != nil && *options.ExpectedPhase != current.Metadata().Phase() { return nil, errPhaseConflict(…) }`
+  | copy         -- `newResource := current.DeepCopy()`
+  | mutate       -- `if err = f(newResource); err != nil { return nil, err }`
+  | noopReturn   -- `if resource.Equal(current, newResource) { return newResource, nil }`
+  | update       -- `err = state.Update(ctx, newResource, opts...)`; nil ⇒ `return newResource, nil`
+  | unknown
+deriving DecidableEq, Repr, Inhabited
+
+/-- which errors of the Update send UpdateWithConflicts back for another attempt -/
+inductive RetryRule where
+  | versionConflict   -- `IsConflictError(err) && !IsOwnerConflictError(err) && !IsPhaseConflictError(err)`
+  | anyConflict       -- `IsConflictError(err)` alone
+  | unknown
+deriving DecidableEq, Repr, Inhabited
+
+/-- what `coreWrapper.ModifyWithResult` does with an error of its Create -/
+inductive CreateErrAct where
+  | returnErr   -- `return nil, err`: the create path is tried once
+  | restart     -- some error makes the function call itself again with the (already mutated) emptyResource
+  | unknown
+deriving DecidableEq, Repr, Inhabited
+
+/-- the expected-phase option an `owned.State` method hands to the wrapped state -/
+inductive PhaseFwd where
+  | explicitOrAny   -- `if o.ExpectedPhase != nil { WithExpectedPhase(*o.ExpectedPhase) } else { WithExpectedPhaseAny() }`
+  | anyOnly         -- only the `nil ⇒ WithExpectedPhaseAny()` half: an explicit phase is dropped
+  | noOption        -- the method has no phase option
+  | unknown
+deriving DecidableEq, Repr, Inhabited
+
+/-! ### C02 / C12: the in-memory watch machinery (pkg/state/impl/inmem/collection.go publish / Watch / WatchAll /
+    encodeBookmark / decodeBookmark), emitted by tools/extract/watch.go -/
+
+/-- a comparison operator of a recognised test; `.unknown` when the operands are not the expected ones -/
+inductive Cmp where
+  | lt | le | gt | ge | eq | ne | unknown
+deriving DecidableEq, Repr, Inhabited
+
+/-- an operand of a recognised comparison / index / assignment -/
+inductive WOperand where
+  | writePos          -- `collection.writePos`
+  | pos               -- the watcher's local `pos`
+  | posMinus1         -- `pos - 1`
+  | lag               -- `collection.writePos - pos`
+  | capacity          -- `int64(collection.capacity)`: the field, read where it is used
+  | capacityLocal     -- a local variable holding `int64(collection.capacity)`, assigned earlier
+  | maxCapacity       -- `collection.maxCapacity`
+  | windowStart       -- `collection.writePos - int64(collection.capacity) + int64(collection.gap)`
+  | windowStartLocal  -- the same with a local copy of the capacity
+  | window            -- `collection.capacity - collection.gap`
+  | tailEvents        -- `options.TailEvents`
+  | foundEvents       -- the local counter of the tail walk-back
+  | minPos            -- the local floor of the tail walk-back
+  | first | last      -- the slot indices of the batch copy
+  | lenBookmark       -- `len(bookmark)`
+  | lit (n : Int)     -- an integer literal
+  | unknown
+deriving DecidableEq, Repr, Inhabited
+
+/-- where a use site takes the ring capacity from -/
+inductive CapSrc where
+  | field      -- `collection.capacity` is read at the use site (under the lock that is held there)
+  | snapshot   -- a local variable assigned from `collection.capacity` before the goroutine loop
+  | unknown
+deriving DecidableEq, Repr, Inhabited
+
+/-- publish: what happens to the ring when the growth test holds -/
+inductive GrowRule where
+  | doubleClampMax   -- `capacity *= 2; if capacity > maxCapacity { capacity = maxCapacity }; stream = append(stream, make(.., capacity-oldCapacity)...)`
+  | unknown
+deriving DecidableEq, Repr, Inhabited
+
+/-- WatchAll: where the bookmark of the initial Bootstrapped / Noop event is computed -/
+inductive InitBmAt where
+  | afterSwitch    -- `encodeBookmark(pos - 1)` evaluated in the goroutine, i.e. with `pos` as the TailEvents / StartFromBookmark switch left it
+  | beforeSwitch   -- evaluated from `pos` before that switch ran
+  | unknown
+deriving DecidableEq, Repr, Inhabited
+
+/-- WatchAll: how the pending events leave the ring -/
+inductive BatchCopy where
+  | cloneOrConcat  -- `slices.Clone(stream[first:last])` / `slices.Concat(stream[first:], stream[:last])`: a private copy
+  | unknown
+deriving DecidableEq, Repr, Inhabited
+
+/-- WatchAll filter closure: how an Updated event becomes Created / Destroyed -/
+inductive RewriteMode where
+  | inPlace        -- assigns `event.Type` and `event.Old = nil` only: every other field (the Bookmark) is kept
+  | freshEvent     -- `*event = state.Event{…}` without the Bookmark
+  | unknown
+deriving DecidableEq, Repr, Inhabited
+
+/-- decodeBookmark: how the cookie is compared -/
+inductive CookieTest where
+  | equalFirst8    -- `slices.Equal(bookmark[:8], bookmarkCookie())` / `bytes.Equal`
+  | hasPrefix      -- `bytes.HasPrefix(bookmark, cookie)`
+  | unknown
+deriving DecidableEq, Repr, Inhabited
+
+/-- WatchAll: what the TailEvents branch of the start switch does -/
+inductive KindTailRule where
+  | clampWindowFloor0   -- `if TailEvents > capacity-gap { TailEvents = capacity-gap }; pos -= int64(TailEvents); if pos < 0 { pos = 0 }`
+  | unknown
+deriving DecidableEq, Repr, Inhabited
+
+/-- a recognised comparison: operator and both operands -/
+structure Test where
+  lhs : WOperand
+  cmp : Cmp
+  rhs : WOperand
 deriving DecidableEq, Repr, Inhabited
 
 end Cosi.Gen
